@@ -10,6 +10,8 @@ pub fn run_case(property: &str, kind: &str, case: &Value) -> Option<Vec<Finding>
         "C18" => crate::c18::replay(kind, case),
         "C05" => crate::c05::replay(kind, case),
         "C06" => crate::c06::replay(kind, case),
+        "C08" => crate::c08::replay(kind, case),
+        "C09" => crate::c09::replay(kind, case),
         "C04" | "C11" | "C17" | "C01" | "C02" | "C03" => crate::gramsweep::replay(property, kind, case),
         _ => None,
     }
